@@ -32,7 +32,7 @@ ASSUMPTIONS = [
     "'same seed' = the same symbolic stream: the k-th draw of both runs is the same solver term when both runs request the same range at position k (uninterpreted function of seed and position; C18 covers NativeRandomSource itself)",
     "'another process' = another iteration order of the repository's own sets of classes, obtained by giving the fixture classes harness-chosen hashes (metaclass) before the grammar is extracted afresh; the permutation is a symbolic input; real allocator / ASLR behaviour and import order of user modules are outside",
     "'one after the other in the same process' = the same representation / grammar objects reused for a second search",
-    "budgets <= 3 evaluations (thorough 4), population 2, fixture fh (4 classes -> 24 orders; quick tier explores identity vs 5 other orders, thorough all 24); wall-clock budgets excepted",
+    "budgets <= 3 evaluations (thorough 4), population 2, fixture fh (4 classes -> 24 orders; identity vs 3 other orders in the quick tier, 6 in the thorough tier) and fh2 (6 classes + 3 refinement objects; 3 / 6 orders); wall-clock budgets excepted",
 ]
 
 
@@ -83,6 +83,8 @@ class TapeRandom(RandomSource):
 
 PERMS = list(itertools.permutations(range(4)))
 QUICK_PERMS = [PERMS[23], PERMS[9], PERMS[14]]
+# thorough tier: six of the 24 orders (all 24 multiply every obligation by 24: several did not finish in 75 min)
+THOROUGH_PERMS = [PERMS[23], PERMS[9], PERMS[14], PERMS[4], PERMS[18], PERMS[7]]
 
 
 def _search(ctx, cfg, tape, perm, reuse=None):
@@ -142,7 +144,7 @@ def _same_program(a, b):
 def h_reproducible(ctx: Ctx, cfg):
     tape = Tape()
     mode = cfg["mode"]
-    choices = PERMS if cfg.get("all_perms") else ([PERMS[23]] if cfg.get("one_perm") else QUICK_PERMS)
+    choices = THOROUGH_PERMS if cfg.get("all_perms") else ([PERMS[23]] if cfg.get("one_perm") else QUICK_PERMS)
     perm2 = ctx.pick(choices, "hash_order") if mode == "other_process" else PERMS[0]
     seen1, best1, err1, objs, p1 = _search(ctx, cfg, tape, PERMS[0])
     seen2, best2, err2, _, p2 = _search(ctx, cfg, tape, perm2, reuse=objs if mode == "same_process" else None)
@@ -187,9 +189,9 @@ def h_operators_reproducible(ctx: Ctx, cfg):
     tape = Tape()
     fx = synth.fixture(cfg.get("fixture", "fh"))
     if hasattr(fx, "IDENTITY"):
-        ident, choices = fx.IDENTITY, (fx.ALL_PERMS if cfg.get("all_perms") else fx.QUICK_PERMS[: cfg.get("n_perms", 99)])
+        ident, choices = fx.IDENTITY, (fx.ALL_PERMS[:6] if cfg.get("all_perms") else fx.QUICK_PERMS[: cfg.get("n_perms", 99)])
     else:
-        ident, choices = PERMS[0], (PERMS if cfg.get("all_perms") else ([PERMS[23]] if cfg.get("one_perm") else QUICK_PERMS))
+        ident, choices = PERMS[0], (THOROUGH_PERMS if cfg.get("all_perms") else ([PERMS[23]] if cfg.get("one_perm") else QUICK_PERMS))
     perm2 = ctx.pick(choices, "hash_order")
     out1, err1 = _operators(ctx, cfg, tape, ident)
     out2, err2 = _operators(ctx, cfg, tape, perm2)
@@ -220,10 +222,10 @@ def obligations(tier: str):
             add(f"rs_{rn}_{mode}", alg="rs", budget=2 if not T else 3, mode=mode, **rc)
     for alg in ("hc", "1p1", "gp"):
         b = {"hc": 3, "1p1": 2, "gp": 3}[alg] + (1 if T else 0)
-        for rn in ("tree",) + (("ge", "sge", "dsge") if T else ()):
+        for rn in ("tree",) + (("ge", "dsge") if T else ()):
             rc = dict(reps[rn])
-            if alg == "gp" and not T:
-                rc["max_depth"] = 1  # one program shape: the generation loop itself is what is compared
+            if alg == "gp" and (not T or rn != "tree"):
+                rc["max_depth"] = 1 if rn != "dsge" else 2  # one program shape: the generation loop itself is what is compared
             add(f"{alg}_{rn}_other_process", alg=alg, budget=b, mode="other_process", **rc)
         if T or alg == "1p1":
             add(f"{alg}_tree_same_process", alg=alg, budget=b, mode="same_process", **reps["tree"])
@@ -243,9 +245,11 @@ def obligations(tier: str):
             rc["one_perm"] = True  # the reversed order only
         if rn == "stack":
             rc.update(map_only=True, gene_length=3, gene_fuel=8 if T else 7, n_perms=2)
-        obs.append(Ob("operators_reproducible", dict(rc, fuel=300, all_perms=T), name=f"operators_{rn}_other_process", timeout=300 * (8 if T else 1), path_timeout=60, smoke=4))
-        if T:
-            add(f"gpx_{rn}_other_process", alg="gp", step="crossover", budget=4, mode="other_process", **dict(rc, all_perms=False))
+        if rn == "sge":
+            rc["one_perm"] = True
+        obs.append(Ob("operators_reproducible", dict(rc, fuel=300, all_perms=T and rn != "sge"), name=f"operators_{rn}_other_process", timeout=300 * (8 if T else 1), path_timeout=60, smoke=4))
+        # (whole GP runs with a crossover step did not exhaust even with 3 orders and budget 4 - the
+        # operator-level obligations above are what covers crossover)
     if T:
-        add("gp_mixed_step_tree_other_process", alg="gp", step="mixed", budget=3, mode="other_process", **reps["tree"])
+        add("gp_mixed_step_tree_other_process", alg="gp", step="mixed", budget=3, mode="other_process", **dict(reps["tree"], max_depth=1))
     return obs
